@@ -22,12 +22,26 @@ package iop
 
 //@ func polynomial.evaluate
 //@ layer ring fr.Element bigint big.Int
+//@ option panics-allowed
+//@ option opaque Generator
 //@ smt (define-fun-rec horner ((a (Array Int Int)) (v Int) (k Int) (n Int)) Int (ite (>= k n) 0 (+ (select a k) (* v (horner a v (+ k 1) n)))))
+//@ smt (declare-fun twseq (Int Int Int) Int)
+//@ smt (assert (forall ((t Int) (x Int) (n Int)) (! (=> (<= n 0) (= (twseq t x n) t)) :pattern ((twseq t x n)))))
+//@ smt (assert (forall ((t Int) (x Int) (n Int)) (! (=> (> n 0) (= (twseq t x n) (* x (twseq t x (- n 1))))) :pattern ((twseq t x n)))))
 //@ smt-fun horner Int
-//@ requires p.Form.Basis == Canonical && p.Form.Layout == Regular
+//@ smt-fun twseq Int
+//@ requires p.Form.Layout == Regular
+//@ ghost gen = 0
+//@ ghost hit = -1
 //@ loop 0
 //@ + invariant[tail] -1 <= i && i <= len(*p.coefficients) - 1 && r == ufint_horner(*p.coefficients, x, i+1, len(*p.coefficients))
-//@ ensures[canonical-regular] result == ufint_horner(*p.coefficients, x, 0, len(*p.coefficients))
+//@ inner evaluate$1
+//@ loop 0
+//@ + invariant[domain] 0 <= i && i <= sizeP && sizeP == len(*p.coefficients) && len(dens) == sizeP && accw == ufint_twseq(1, w, i) && forall(j, 0, i, !iszero(x - ufint_twseq(1, w, j)))
+//@ loop 1
+//@ + invariant[sum] 0 <= i && i <= sizeP && sizeP == len(*p.coefficients) && len(dens) == sizeP && len(invdens) == sizeP
+//@ ensures[canonical-regular] p.Form.Basis == Canonical ==> result == ufint_horner(*p.coefficients, x, 0, len(*p.coefficients))
+//@ ensures[domain-point] p.Form.Basis != Canonical ==> forall(j, 0, len(*p.coefficients), iszero(x - ufint_twseq(1, w, j)) && forall(k, 0, j, !iszero(x - ufint_twseq(1, w, k))) ==> result == (*p.coefficients)[j])
 //@ modifies nothing
 //@ end
 
